@@ -153,7 +153,12 @@ def run(prop, tier='quick', seed=0, repo='/repo', update_lock=False, verbose=Fal
     # ---- vacuity probes: every function has a reachable normal exit; every lemma's hypotheses are satisfiable
     vac_tasks = []
     for q, pcs in eng.reach.items():
+        # one probe per distinct return statement (at most 10 per function): a function is vacuous iff none is reachable
+        chosen = {}
         for i, pc in enumerate(pcs):
+            line = eng.reach_lines.get(q, [None] * len(pcs))[i] if hasattr(eng, 'reach_lines') else i
+            chosen.setdefault(line, (i, pc))
+        for i, pc in list(chosen.values())[:10]:
             v = VC('%s.reach.%d' % (q.partition(':')[2], i), pc, z3.BoolVal(False), 'vacuity')
             txt, _ = solve.vc_to_smt2(v, extra)
             vac_tasks.append((v.name, txt, 'reach'))
@@ -313,6 +318,7 @@ def run(prop, tier='quick', seed=0, repo='/repo', update_lock=False, verbose=Fal
                         + sorted(a for a in eng.assumed),
         'backends': backends,
         'solver_seconds': round(solver_s, 2),
+        'slowest_obligations': sorted([(r['name'], r['backend'], r['time_s']) for r in discharged if r.get('time_s', 0) > 3], key=lambda x: -x[2])[:12],
         'phase_seconds': {'vc_generation': round(t_gen, 1), 'discharge_wall': round(t_solve, 1), 'vacuity_wall': round(t_vac, 1)},
         'functions_under_contract': fn_infos,
         'lemmas': [lm.name for lm in lemmas],
